@@ -37,6 +37,9 @@ def main():
         chk.run(f"A-full parse exec L={l}", harness.A_harness(lambda ex, l=l: chars.sym_text(ex, "c", l), path_oracles=o),
                 f"all strings over R of length {l}", vacuity=("SyntaxError",))
     bad = [t for t in lits if len(t) < 120]
+    xg = seeds.grammar_programs("xonsh", 3 if chk.quick else 8, chk.seed)
+    pycommon.b_holes(chk, o, seeds.sample(chk.rng, xg, 60 if chk.quick else 1000), 2 if chk.quick else 0, python_only=False, wall=120 if chk.quick else 2400, vac=("SyntaxError",),
+                     symbolic_gaps=False, name="B-holes k=1 on xonsh.gram derivations")
     if chk.quick:
         pycommon.b_holes(chk, o, seeds.sample(chk.rng, py, 50) + seeds.sample(chk.rng, xs, 30), 3, python_only=False, wall=100, vac=("SyntaxError",), symbolic_gaps=False)
         pycommon.a_holes(chk, o, LAYOUT_ERR_SEEDS + seeds.sample(chk.rng, bad, 40), 4, wall=120, vac=("SyntaxError",))
